@@ -377,7 +377,17 @@ pub fn run_c04(out: &mut Out, seed: u64, thorough: bool) {
             let micr1 = s.m.bus().is_key_edge_int_enabled();
             let ie1 = ie_at_next_sample(&s);
             run_line(out, &mut s, "irq");
-            run_line(out, &mut s, "edges 250");
+            // the second press comes after the first request has been looked at (taken or dropped) and
+            // its routine has run: a press while the flip-flop is still set would merge with it
+            let mut wait = 0;
+            {
+                let mut probe = Sess { m: s.m.clone(), last_edge: None, last_panicked: false };
+                while probe.m.verif_state().pending_edge_interrupt && wait < 20000 {
+                    probe.m.raw_mut().trigger_clock_edge();
+                    wait += 1;
+                }
+            }
+            run_line(out, &mut s, &format!("edges {}", wait + 250));
             run_line(out, &mut s, "d");
             let micr2 = s.m.bus().is_key_edge_int_enabled();
             let ie2 = ie_at_next_sample(&s);
